@@ -260,8 +260,8 @@ def c17_e(ctx: Ctx):
 @rule("C17-f")
 def c17_f(ctx: Ctx):
     """Per-job / per-entry loops are independent: nothing read in one iteration was computed in another."""
-    from .lints import per_item_loops
-    return per_item_loops(ctx, "C17-f", [('signac.linked_view:create_linked_view', 'a job is linked under the path computed for the previous one'), ('signac.linked_view:_update_view', 'a link is created from the data of the previous one'), ('signac.linked_view:_analyze_view', 'a link is classified by the data of the previous one')])
+    from .lints import per_item_loops, late_binding_in_loops
+    return late_binding_in_loops(ctx, "C17-f", ("signac.linked_view",)) + per_item_loops(ctx, "C17-f", [('signac.linked_view:create_linked_view', 'a job is linked under the path computed for the previous one'), ('signac.linked_view:_update_view', 'a link is created from the data of the previous one'), ('signac.linked_view:_analyze_view', 'a link is classified by the data of the previous one')])
 
 
 @rule("C17-g")
@@ -278,6 +278,41 @@ def c17_h(ctx: Ctx):
     out = keyed_by_parameter(ctx, "C17-h", [(LV + ":_Node.get_child", "self.children", "name", "directories whose names differ only in case share one node: after a value is re-spelled "
                                              "('Alpha' -> 'alpha') the obsolete branch is coloured alive and its dangling link is never removed")])
     out += no_prefix_length_slicing(ctx, "C17-h", ["signac.linked_view", "signac.import_export"])
+    # the existing links (the tree) and the wanted links (the colouring) are cut into components in the same way: './job' against 'job' is how a stale
+    # root-level link is recognised as obsolete and replaced
+    R = "C17-h"
+    bt = ctx.prog.funcs.get(LV + ":_build_tree")
+    av = ctx.prog.funcs.get(LV + ":_analyze_view")
+    k = LV + "|same-tokenisation"
+    if bt is None or av is None:
+        out.append(ctx.inc(R, None, None, "_build_tree / _analyze_view not found", construct=k))
+        return out
+
+    def shape(e, var):
+        t = canon(e).replace(" ", "")
+        return t.replace(var, "P") if var else t
+    tree_tok = []
+    for lp in [n for n in body_nodes(bt) if isinstance(n, ast.For)]:
+        outer = [o for o in body_nodes(bt) if isinstance(o, ast.For) and o is not lp and any(x is lp for x in ast.walk(o))]
+        if outer and isinstance(outer[0].target, ast.Name) and outer[0].target.id in {x.id for x in ast.walk(lp.iter) if isinstance(x, ast.Name)}:
+            tree_tok.append((lp, shape(common.inline_at(ctx, bt, lp.iter, lp), outer[0].target.id)))
+    col_tok = []
+    for c in body_nodes(av):
+        if isinstance(c, ast.Call) and any(t.endswith(":_color_path") for t in common.targets_of(ctx, av, c)) and len(c.args) >= 2:
+            a = common.inline_at(ctx, av, c.args[1], c)
+            names = [x.id for x in ast.walk(a) if isinstance(x, ast.Name) and x.id not in ("os",)]
+            col_tok.append((c, shape(a, names[0] if names else None)))
+    if not tree_tok or not col_tok:
+        out.append(ctx.inc(R, bt, bt.node, "tokenisation of view paths not recognised", construct=k))
+    else:
+        a, b = tree_tok[0][1], col_tok[0][1]
+        std = ("P.split(os.sep)", "P.split(os.path.sep)")
+        if a == b or (a in std and b in std):
+            out.append(ctx.ok(R, bt, tree_tok[0][0], f"existing and wanted view paths are split into components the same way ({a})", construct=k))
+        else:
+            out.append(ctx.viol(R, bt, tree_tok[0][0], f"the tree of existing links splits paths with {a} while the wanted links are coloured with {b}: the two disagree on '.' components "
+                                "(PurePath('./job').parts drops the '.'), so the stale root-level link './job' of a one-job view is no longer recognised as obsolete, is not removed, and "
+                                "re-creating 'job' fails with FileExistsError", construct=k))
     return out
 
 
